@@ -48,10 +48,21 @@ def dec(vc, n):
     return SBytes(int_to_str(lift(n).t))
 
 
+def split_on_reason_table(vc, status):
+    """case split of the contract on the status codes of the reason-phrase table (one path per entry + one for "unknown"):
+    keeps every solver query small; no assumption is added"""
+    from mitmproxy.net.http import status_codes
+    for k in sorted(status_codes.RESPONSES):
+        if vc.branch(status == k):
+            return k          # on this path status == k: the call is made with the literal (same value, smaller terms)
+    return status
+
+
 @scenario("format_error", functions=[F], markup_proj=True)
 def s_format_error(vc):
     status = vc.sym_int("status")
     msg = vc.sym_str("message")
+    status = split_on_reason_table(vc, status)
     out = vc.call(F, status, msg)
     vc.ensure("total.no_exception", out.ok)
     if not out.ok:
@@ -91,6 +102,7 @@ def s_make_error_response(vc):
     body = vc.sym_bytes("body")
     calls = []
     _body_summary(vc, body, calls)
+    status = split_on_reason_table(vc, status)
     out = vc.call(M, status, msg)
     vc.ensure("total.no_exception", out.ok)
     if not out.ok:
@@ -423,3 +435,219 @@ def s_h3_send_error(vc):
         vc.ensure("page.transmitted", len(out.trace) == 1)
     else:
         vc.ensure("nopage.no_headers_no_data", "headers" not in kinds and "data" not in kinds and calls == [])
+
+
+# =====================================================================================================================
+# T2 (bounded): real HttpLayer, sans-io; inputs that make mitmproxy answer with an error page, with markup in the reflected text
+
+MARKER = b"<script>alert(\"x&'y\")</script>"
+SKELETON = ["html", "head", "title", "/title", "/head", "body", "h1", "/h1", "p", "/p", "/body", "/html"]
+
+
+def page_checks(b, body: bytes, inp, expect_reflection):
+    """the page is the template's tag skeleton with text only; reflected text comes back through html.unescape"""
+    import html
+    from html.parser import HTMLParser
+
+    class P(HTMLParser):
+        def __init__(self):
+            super().__init__(convert_charrefs=False)
+            self.tags, self.attrs, self.text, self.cur = [], [], {}, None
+            self.other = []
+
+        def handle_starttag(self, tag, attrs):
+            self.tags.append(tag)
+            self.cur = tag
+            if attrs:
+                self.attrs.append((tag, attrs))
+
+        def handle_endtag(self, tag):
+            self.tags.append("/" + tag)
+            self.cur = None
+
+        def handle_data(self, d):
+            if self.cur:
+                self.text[self.cur] = self.text.get(self.cur, "") + d
+
+        def handle_entityref(self, name):
+            if self.cur:
+                self.text[self.cur] = self.text.get(self.cur, "") + "&" + name + ";"
+
+        def handle_charref(self, name):
+            if self.cur:
+                self.text[self.cur] = self.text.get(self.cur, "") + "&#" + name + ";"
+
+        def handle_comment(self, d):
+            self.other.append(("comment", d))
+
+        def handle_decl(self, d):
+            self.other.append(("decl", d))
+
+        def handle_pi(self, d):
+            self.other.append(("pi", d))
+
+    try:
+        text = body.decode("utf8")
+    except UnicodeDecodeError as e:
+        b.fail("c12.page_is_utf8", inp, str(e))
+        return
+    p = P()
+    p.feed(text)
+    p.close()
+    if p.tags != SKELETON or p.attrs or p.other:
+        b.fail("c12.page_has_only_the_template_markup", inp, f"tags {p.tags} attrs {p.attrs} other {p.other}; body {body!r}")
+    if MARKER in body or b"<script" in body.lower():
+        b.fail("c12.reflected_text_is_escaped", inp, f"raw marker in page: {body!r}")
+    para = html.unescape(p.text.get("p", ""))
+    if expect_reflection and MARKER.decode() not in para and "<script>" not in para:
+        # the marker went through repr()/str(): quotes and backslashes may be re-spelt, the tag opener must survive unescaping
+        b.fail("c12.reflection_survives_unescape", inp, f"<p> text after html.unescape: {para!r}")
+    return p
+
+
+def bounded(tier, seed):
+    import itertools
+    from props import http1ref as R
+    from props.C01 import mk_request, mk_response
+    b = Bounded()
+    b.rule = ("inputs that make mitmproxy generate an error page: malformed request line / header line / field name / Content-Length / Transfer-Encoding / "
+              "authority / missing Host, unreachable upstream (error text), oversized request and response bodies, invalid response head / response framing from "
+              "the origin, each with a markup marker (<script>, both quote characters, &) placed in the reflected position; HTTP/1 client (whole / 1-byte / "
+              "pipelined behind a good request) and HTTP/2 client (through a real hyper-h2 peer); distinct = (case, delivery); non-trivial = a page was sent")
+    b.bound = "one marker per position; HTTP/1 and HTTP/2 clients; regular proxy mode"
+    M = MARKER
+    good = mk_request(b"GET", target=b"http://example.com/ok")
+    ok_resp = (b"HTTP/1.1 200 OK\r\nContent-Length: 2\r\n\r\nok", False)
+    cases = []  # (label, client stream, responses, kwargs, expected status, reflection expected)
+    cases += [
+        ("request-line", b"GET / " + M + b" HTTP/1.1\r\nHost: x\r\n\r\n", [], {}, 400, True),
+        ("request-line-target", b"GET http://example.com/" + M.replace(b" ", b"") + b" HTTP/9.9.9\r\nHost: x\r\n\r\n", [], {}, 400, True),
+        ("request-version", b"GET / " + M + b"\r\nHost: x\r\n\r\n", [], {}, 400, True),
+        ("header-line-no-colon", mk_request(b"GET", lines=[M]), [], {}, 400, True),
+        ("field-name", mk_request(b"GET", lines=[M + b": 1"]), [], {}, 400, True),
+        ("field-name-2", mk_request(b"GET", lines=[b"X" + M + b"Y: 1"]), [], {}, 400, True),
+        ("content-length", mk_request(b"POST", lines=[b"Content-Length: " + M]), [], {}, 400, True),
+        ("transfer-encoding", mk_request(b"POST", lines=[b"Transfer-Encoding: " + M]), [], {}, 400, True),
+        ("two-transfer-encodings", mk_request(b"POST", lines=[b"Transfer-Encoding: " + M, b"Transfer-Encoding: chunked"]), [], {}, 400, True),
+        ("two-content-lengths", mk_request(b"POST", lines=[b"Content-Length: 3", b"Content-Length: " + M]), [], {}, 400, True),
+        ("te-http10", mk_request(b"POST", version=b"HTTP/1.0", lines=[b"Transfer-Encoding: " + M]), [], {}, 400, True),
+        ("authority", b"GET http://" + M + b"/ HTTP/1.1\r\nHost: x\r\n\r\n", [], {}, 400, True),
+        ("connect-authority", b"CONNECT " + M.replace(b" ", b"") + b":443 HTTP/1.1\r\n\r\n", [], {}, 400, True),
+        ("scheme", b"GET ft" + M.replace(b"/", b"") + b"://example.com/ HTTP/1.1\r\nHost: x\r\n\r\n", [], {}, 400, True),
+        ("no-host", b"GET / HTTP/1.1\r\nX-A: " + M + b"\r\n\r\n", [], {}, 400, False),
+        ("host-header", b"GET / HTTP/1.1\r\nHost: " + M + b"\r\n\r\n", [], {}, 400, False),
+        ("upstream-unreachable", good, [], {"open_error": M.decode()}, 502, True),
+        ("request-too-large", mk_request(b"POST", lines=[b"Content-Length: 100", b"X-A: " + M], body=b"x" * 100), [], {"options": {"body_size_limit": "10"}}, 413, False),
+        ("response-too-large", good, [(mk_response(lines=[b"Content-Length: 100", b"X-A: " + M], body=b"x" * 100), False)], {"options": {"body_size_limit": "10"}}, 502, False),
+        ("response-status-line", good, [(b"HTTP/1.1 " + M + b" OK\r\n\r\n", False)], {}, 502, True),
+        ("response-version", good, [(M + b" 200 OK\r\n\r\n", False)], {}, 502, True),
+        ("response-header-line", good, [(mk_response(lines=[M]), False)], {}, 502, True),
+        ("response-field-name", good, [(mk_response(lines=[M + b": 1", b"Content-Length: 0"]), False)], {}, 502, True),
+        ("response-content-length", good, [(mk_response(lines=[b"Content-Length: " + M]), False)], {}, 502, True),
+        ("response-transfer-encoding", good, [(mk_response(lines=[b"Transfer-Encoding: " + M]), False)], {}, 502, True),
+        ("response-te-and-cl", good, [(mk_response(lines=[b"Transfer-Encoding: chunked", b"Content-Length: 3", b"X-A: " + M]), False)], {}, 502, False),
+        ("response-bad-chunk", good, [(mk_response(lines=[b"Transfer-Encoding: chunked"], body=M + b"\r\n"), False)], {}, 502, False),
+        ("server-closes", good, [(b"", True)], {}, 502, False),
+    ]
+    n_pages = 0
+    for label, stream, responses, kw, status, reflect in cases:
+        for delivery, prefix in itertools.product(["whole", "bytes"], [b"", good]):
+            if prefix and (label == "upstream-unreachable" or tier == "quick" and delivery == "bytes"):
+                continue
+            full = prefix + stream
+            segs = [full] if delivery == "whole" else [full[i:i + 1] for i in range(len(full))]
+            opts = R.get_options(**kw["options"]) if "options" in kw else None
+            resp = ([ok_resp] if prefix else []) + list(responses)
+            ex = R.Exchange(segs, resp, options=opts, open_error=kw.get("open_error"), server_splitter=(None if delivery == "whole" else (lambda x: [x[i:i + 1] for i in range(len(x))])))
+            inp = {"case": label, "delivery": delivery, "pipelined_behind_good_request": bool(prefix), "client_stream": full.decode("latin-1"),
+                   "responses": [r.decode("latin-1") for r, _ in resp], "open_error": kw.get("open_error")}
+            if ex.error:
+                b.fail("c12.total", inp, ex.error)
+                continue
+            n_ctx = len(ex.flows) + 1
+            d = R.read_stream(ex.to_client(), False, ex.closed(ex.client) is not None, [b"GET"] * (n_ctx + 1))
+            pages = [m for m in d["messages"] if any(n.lower() == b"server" and v.startswith(b"mitmproxy") for n, v in m.fields)]
+            b.case((label, delivery, bool(prefix)), nontrivial=bool(pages))
+            if d["state"] != "clean":
+                b.fail("c12.http1_page_complete_and_framed", inp, f"{d['state']} ({d['why']}): {ex.to_client()!r}")
+                continue
+            if not pages:
+                if label not in ("server-closes",):
+                    b.fail("c12.error_is_answered_with_a_page", inp, f"no error page: to client {ex.to_client()!r}; flows {ex.flows!r}")
+                continue
+            n_pages += 1
+            pg = pages[-1]
+            if pg is not d["messages"][-1] or len(pages) != 1:
+                b.fail("c12.page_is_the_last_response", inp, repr(d["messages"]))
+            if pg.status != status:
+                b.fail("c12.page_status", inp, f"expected {status}, got {pg.status}")
+            ct = [v for n, v in pg.fields if n.lower() == b"content-type"]
+            if ct != [b"text/html"]:
+                b.fail("c12.page_declares_html", inp, repr(pg.fields))
+            if pg.flags or pg.framing[0] != "len" or [v for n, v in pg.fields if n.lower() == b"connection"] != [b"close"]:
+                b.fail("c12.http1_page_complete_and_framed", inp, f"{pg!r} framing {pg.framing}")
+            if ex.closed(ex.client) != "full":
+                b.fail("c12.http1_page_then_close", inp, "connection left open after the error page")
+            page_checks(b, pg.body, inp, reflect)
+    # ---- HTTP/2 client (real hyper-h2 peer): unreachable upstream, invalid origin response, oversized bodies
+    n_pages += _h2_cases(b, tier)
+    if n_pages == 0:
+        b.fail("c12.some_page_was_generated", {}, "no case produced an error page")
+    return b
+
+
+def _h2_cases(b, tier):
+    import h2.events
+    from mitmproxy.proxy import layers
+    from mitmproxy.proxy.layers.http import HTTPMode
+    from props import sansio, h2peer
+    from props import http1ref as R
+    from props.C01 import mk_response
+    M = MARKER
+    n = 0
+    cases = [
+        ("h2.upstream-unreachable", {"open_error": M.decode()}, None, 502, True),
+        ("h2.response-field-name", {}, mk_response(lines=[M + b": 1", b"Content-Length: 0"]), 502, True),
+        ("h2.response-content-length", {}, mk_response(lines=[b"Content-Length: " + M]), 502, True),
+        ("h2.response-status-line", {}, b"HTTP/1.1 " + M + b" OK\r\n\r\n", 502, True),
+        ("h2.response-too-large", {"options": {"body_size_limit": "10"}}, mk_response(lines=[b"Content-Length: 100", b"X-A: " + M], body=b"x" * 100), 502, False),
+    ]
+    for label, kw, origin_resp, status, reflect in cases:
+        inp = {"case": label, "open_error": kw.get("open_error"), "origin_response": origin_resp.decode("latin-1") if origin_resp else None}
+        try:
+            opts = R.get_options(**kw["options"]) if "options" in kw else R.get_options()
+            ctx = sansio.context_for(opts)
+            ctx.client.alpn = b"h2"
+            top = layers.HttpLayer(ctx, HTTPMode.regular)
+            err = kw.get("open_error")
+            d = sansio.Driver(top, open_policy=(lambda cmd: err) if err else None)
+            d.start()
+            peer = h2peer.H2Peer(d, ctx.client, client_side=True)
+            peer.start()
+            sid = peer.h2.get_next_available_stream_id()
+            peer.h2.send_headers(sid, [(b":method", b"GET"), (b":scheme", b"http"), (b":authority", b"example.com"), (b":path", b"/" + M.replace(b" ", b"")), (b"x-a", M)], end_stream=True)
+            peer.flush()
+            if origin_resp is not None and d.opened:
+                d.data(d.opened[0], origin_resp)
+            evs = peer.pump()
+        except Exception as e:
+            import traceback
+            b.fail("c12.total", inp, f"{type(e).__name__}: {e} {traceback.format_exc()[-800:]}")
+            continue
+        heads = [e for e in peer.events if isinstance(e, h2.events.ResponseReceived)]
+        body = b"".join(e.data for e in peer.events if isinstance(e, h2.events.DataReceived))
+        ended = any(isinstance(e, h2.events.StreamEnded) for e in peer.events)
+        b.case((label, "h2"), nontrivial=bool(heads))
+        if not heads:
+            b.fail("c12.error_is_answered_with_a_page", inp, f"no response on the HTTP/2 stream: {peer.events!r}")
+            continue
+        n += 1
+        hd = dict(heads[0].headers)
+        if hd.get(b":status") != b"%d" % status:
+            b.fail("c12.page_status", inp, f"expected {status}, got {hd.get(b':status')}")
+        if hd.get(b"content-type") != b"text/html":
+            b.fail("c12.page_declares_html", inp, repr(heads[0].headers))
+        if not ended:
+            b.fail("c12.h2_page_ends_the_stream", inp, repr(peer.events))
+        page_checks(b, body, inp, reflect)
+    return n
